@@ -1019,3 +1019,162 @@ def expand_path_constants(tree: ast.Module, enums: Dict[str, str] = {}, imported
 
     T().visit(tree)
     return [f"path constant {k} expanded at {v} use(s)" for k, v in sorted(used.items())]
+
+
+# ---- small algebra after expansion ------------------------------------------------------------------------------------------------------
+
+def _pure_test(e: ast.AST) -> bool:
+    """evaluating the test twice is evaluating it once: names, constants, attributes of names, is / == / in comparisons, not / and / or"""
+    for n in ast.walk(e):
+        if not isinstance(n, (ast.Name, ast.Constant, ast.Attribute, ast.Compare, ast.BoolOp, ast.UnaryOp, ast.Load, ast.cmpop, ast.boolop, ast.unaryop)):
+            return False
+    return True
+
+
+def _is_boolean(e: ast.AST) -> bool:
+    if isinstance(e, ast.Compare):
+        return True
+    if isinstance(e, ast.UnaryOp) and isinstance(e.op, ast.Not):
+        return True
+    if isinstance(e, ast.BoolOp):
+        return all(_is_boolean(v) for v in e.values)
+    return isinstance(e, ast.Constant) and isinstance(e.value, bool)
+
+
+class _Algebra(ast.NodeTransformer):
+    def __init__(self) -> None:
+        self.log: List[str] = []
+
+    def visit_IfExp(self, node: ast.IfExp) -> ast.AST:
+        self.generic_visit(node)
+        b, o = node.body, node.orelse
+        if isinstance(b, ast.Constant) and isinstance(o, ast.Constant) and isinstance(b.value, bool) and isinstance(o.value, bool) and b.value != o.value and _is_boolean(node.test):
+            self.log.append("`True if c else False` read as c")
+            if b.value:
+                return node.test
+            return ast.copy_location(ast.UnaryOp(op=ast.Not(), operand=node.test), node)
+        return node
+
+
+def _split_tuple_choice(body: List[ast.stmt], log: List[str]) -> None:
+    """`(a, b) = (x1, y1) if c else (x2, y2)` with a test that can be evaluated twice is `a = x1 if c else x2; b = y1 if c else y2`
+    (no target is read by the test or by an arm)"""
+    i = 0
+    while i < len(body):
+        st = body[i]
+        for fld in ("body", "orelse", "finalbody"):
+            sub = getattr(st, fld, None)
+            if isinstance(sub, list) and sub and isinstance(sub[0], ast.stmt):
+                _split_tuple_choice(sub, log)
+        for h in getattr(st, "handlers", []) or []:
+            _split_tuple_choice(h.body, log)
+        if isinstance(st, ast.Assign) and len(st.targets) == 1 and isinstance(st.targets[0], (ast.Tuple, ast.List)) and all(isinstance(t, ast.Name) for t in st.targets[0].elts):
+            v = st.value
+            tg = st.targets[0].elts
+            names = {t.id for t in tg}  # type: ignore
+            new: Optional[List[ast.stmt]] = None
+            if isinstance(v, ast.IfExp) and isinstance(v.body, ast.Tuple) and isinstance(v.orelse, ast.Tuple) and len(v.body.elts) == len(tg) == len(v.orelse.elts) \
+                    and _pure_test(v.test) and not any(isinstance(n, ast.Name) and n.id in names for n in ast.walk(v)) and not any(isinstance(x, ast.Starred) for x in v.body.elts + v.orelse.elts):
+                new = []
+                for t, x, y in zip(tg, v.body.elts, v.orelse.elts):
+                    a = ast.Assign(targets=[t], value=ast.IfExp(test=copy.deepcopy(v.test), body=x, orelse=y), type_comment=None)
+                    new.append(ast.fix_missing_locations(ast.copy_location(a, st)))
+            elif isinstance(v, ast.Tuple) and len(v.elts) == len(tg) and not any(isinstance(x, ast.Starred) for x in v.elts) \
+                    and not any(isinstance(n, ast.Name) and n.id in names for n in ast.walk(v)):
+                new = []
+                for t, x in zip(tg, v.elts):
+                    a = ast.Assign(targets=[t], value=x, type_comment=None)
+                    new.append(ast.fix_missing_locations(ast.copy_location(a, st)))
+            if new is not None:
+                body[i:i + 1] = new
+                log.append("tuple assignment of a choice of tuples split per component")
+                i += len(new)
+                continue
+        i += 1
+
+
+def _attr_aliases(fd: FuncDef, frozen_attrs: Set[str], log: List[str]) -> None:
+    """`known = self._paths` (the only binding of `known` in the function, `self._paths` bound by the constructor only): `known` is `self._paths`"""
+    stores: Dict[str, List[ast.AST]] = {}
+    for n in _own_walk(fd):
+        if isinstance(n, ast.Name) and isinstance(n.ctx, (ast.Store, ast.Del)):
+            stores.setdefault(n.id, []).append(n)
+    params = set(_params(fd))
+    nested_uses = {n.id for sub in _own_walk(fd) if isinstance(sub, (ast.FunctionDef, ast.AsyncFunctionDef, ast.ClassDef, ast.Lambda)) for n in ast.walk(sub) if isinstance(n, ast.Name)}
+    cands: Dict[str, ast.Assign] = {}
+    for n in _own_walk(fd):
+        if isinstance(n, ast.Assign) and len(n.targets) == 1 and isinstance(n.targets[0], ast.Name) and isinstance(n.value, ast.Attribute) \
+                and isinstance(n.value.value, ast.Name) and n.value.value.id == "self" and n.value.attr in frozen_attrs:
+            x = n.targets[0].id
+            if len(stores.get(x, [])) == 1 and x not in params and x not in nested_uses and x != "self":
+                cands[x] = n
+    if not cands:
+        return
+
+    # the assignment must come first where the name is used: only when it sits at the top level of the function body (or of an expanded block there)
+    def top_level(stmts: List[ast.stmt]):
+        for s in stmts:
+            yield s
+            if isinstance(s, InlineBlock):
+                yield from top_level(s.body)
+    tops = {id(s) for s in top_level(fd.body)}
+    cands = {x: a for x, a in cands.items() if id(a) in tops}
+    if not cands:
+        return
+
+    class Sub(ast.NodeTransformer):
+        def visit_Name(self, node: ast.Name) -> ast.AST:
+            if isinstance(node.ctx, ast.Load) and node.id in cands:
+                return ast.copy_location(copy.deepcopy(cands[node.id].value), node)
+            return node
+
+        def visit_FunctionDef(self, node):  # type: ignore
+            return node
+
+        def visit_Lambda(self, node):  # type: ignore
+            return node
+
+        def visit_ClassDef(self, node):  # type: ignore
+            return node
+
+    def drop(stmts: List[ast.stmt]) -> None:
+        stmts[:] = [s for s in stmts if not any(s is a for a in cands.values())]
+        if not stmts:
+            stmts.append(ast.Pass())
+        for s in stmts:
+            if isinstance(s, InlineBlock):
+                drop(s.body)
+    sub = Sub()
+    for s in fd.body:
+        sub.visit(s)
+    drop(fd.body)
+    ast.fix_missing_locations(fd)
+    log.append(f"{fd.name}: " + ", ".join(f"`{x}` is `self.{a.value.attr}`" for x, a in sorted(cands.items())))  # type: ignore
+
+
+def simplify(tree: ast.Module) -> List[str]:
+    """Behaviour-preserving rewrites applied after the expansions, so that the rules see one form:
+    tuple assignments of tuples (and of a choice between two tuples) are split per component, `True if c else False` is c,
+    and a local that is nothing but another name for an attribute of self that only the constructor binds is that attribute."""
+    log: List[str] = []
+    for cls in [st for st in tree.body if isinstance(st, ast.ClassDef)] + [tree]:
+        frozen: Set[str] = set()
+        if isinstance(cls, ast.ClassDef):
+            bound: Dict[str, Set[str]] = {}
+            for m in [x for x in cls.body if isinstance(x, ast.FunctionDef)]:
+                for n in ast.walk(m):
+                    if isinstance(n, ast.Attribute) and isinstance(n.ctx, (ast.Store, ast.Del)) and isinstance(n.value, ast.Name) and n.value.id == "self":
+                        bound.setdefault(n.attr, set()).add(m.name)
+            frozen = {a for a, ms in bound.items() if ms <= {"__init__"}}
+        for fd in [x for x in cls.body if isinstance(x, ast.FunctionDef)]:
+            before = len(log)
+            _split_tuple_choice(fd.body, log)
+            alg = _Algebra()
+            for s in fd.body:
+                alg.visit(s)
+            log += alg.log
+            if frozen and fd.name != "__init__":
+                _attr_aliases(fd, frozen, log)
+            if len(log) > before:
+                ast.fix_missing_locations(fd)
+    return sorted(set(log))
